@@ -2159,6 +2159,10 @@ Lemma opts_cfg_ok o g : opts_dom o g = true -> cfg_ok (cfg_of o g) /\ ids_ok (cf
   match o_ids o, geom_type g with
   | _ :: _, (TPoint | TLine | TPoly) => true
   | _, _ => false
+  end = false /\
+  match o_ids o with
+  | [] => false
+  | ids => negb (Nat.eqb (member_count g) (length ids))
   end = false.
 Proof.
   unfold opts_dom. intros H.
@@ -2168,13 +2172,14 @@ Proof.
   apply andb_true_iff in H. destruct H as [Hpxy Hpz].
   apply negb_true_iff in Hpxy, Hpz, Hpm.
   apply prec_bad_false in Hpxy, Hpz, Hpm. unfold prec_of in *.
-  split; [|split].
+  split; [|split; [|split]].
   - unfold cfg_ok, cfg_of. cbn [w_pxy w_pz w_pm w_ids]. repeat split; try lia.
     apply forallb_Forall in Hi. eapply Forall_impl; [|exact Hi]. intros x Hx. apply in_i64b_iff. exact Hx.
   - unfold ids_ok, cfg_of, w_hasids. cbn [w_ids]. intros Hh He.
     destruct (o_ids o) as [|i ids]; [discriminate|].
-    destruct g; try discriminate; rewrite He in Hm; cbn [orb] in Hm; apply Nat.eqb_eq in Hm; symmetry; exact Hm.
+    destruct g; try discriminate; cbn [member_count] in Hm; apply Nat.eqb_eq in Hm; symmetry; exact Hm.
   - destruct (o_ids o) as [|i ids]; [reflexivity|]. destruct g; try discriminate; reflexivity.
+  - destruct (o_ids o) as [|i ids]; [reflexivity|]. destruct g; try discriminate; rewrite Hm; reflexivity.
 Qed.
 
 Lemma info_expected o g st len :
@@ -2199,7 +2204,7 @@ Proof.
       unfold env_of, geom_pts. unfold gpts in *. rewrite Emm in *.
       unfold bb_state in Hbb. destruct (ws_valid st); [|discriminate]. inversion Hbb; subst mm.
       reflexivity.
-    + destruct (opts_cfg_ok o g Ho) as [_ [_ Hm]].
+    + destruct (opts_cfg_ok o g Ho) as [_ [_ [Hm _]]].
       unfold w_hasids, cfg_of. cbn [w_ids]. destruct (o_ids o) as [|i ids] eqn:Ei; [reflexivity|].
       destruct g; cbn [geom_type] in Hm; try discriminate; reflexivity.
 Qed.
@@ -2213,7 +2218,7 @@ Proof.
   unfold wf_twkb. intros H.
   apply andb_true_iff in H. destruct H as [H Ho].
   apply andb_true_iff in H. destruct H as [Hcons Hd].
-  destruct (opts_cfg_ok o g Ho) as [Hc [Hids Hm]].
+  destruct (opts_cfg_ok o g Ho) as [Hc [Hids [Hm Hm2]]].
   unfold consistent in Hcons.
   assert (Hok : geom_ok (Z.eqb 0) (w_ct (cfg_of o g)) g = true) by (rewrite cfg_of_ct; exact Hcons).
   assert (Hd' : geom_dom (ring_dom (w_close (cfg_of o g))) g = true) by exact Hd.
@@ -2225,7 +2230,7 @@ Proof.
     match goal with |- (if prec_bad 0 ?a || prec_bad 0 ?b then _ else _) = _ =>
       assert (Hp2 : prec_bad 0 a = false) by (unfold prec_bad; lia);
       assert (Hp3 : prec_bad 0 b = false) by (unfold prec_bad; lia) end.
-    rewrite Hp2, Hp3. cbn [orb]. rewrite Hm.
+    rewrite Hp2, Hp3. cbn [orb]. rewrite Hm, Hm2.
     change (twrite _ g) with (twrite (cfg_of o g) g). rewrite E. reflexivity.
   - intros H63. unfold tdec, tdec_full, dec_full.
     destruct (Hdec (S (length doc)) [] 0%N ltac:(lia) H63) as [a' Ed].
@@ -2449,19 +2454,8 @@ Proof.
   destruct (prec_bad (-8) (o_pxy o) || _ || _) eqn:Ep; [eexists; reflexivity|].
   cbn [orb] in H.
   destruct (o_ids o) as [|i ids] eqn:Ei; [discriminate|].
-  match goal with |- context [twrite ?cfg g] => set (c := cfg) end.
-  assert (Hh : w_hasids c = true) by reflexivity.
-  assert (Hids : w_ids c = i :: ids) by reflexivity.
   destruct g as [p|l|p|ct ps|ct ls|ct ps|ct gs]; cbn [geom_type]; try (eexists; reflexivity);
-    apply andb_true_iff in H; destruct H as [He Hl]; apply negb_true_iff in He, Hl.
-  - destruct (twrite_id_mismatch c (GMPoint ct ps) Hh He) as [e E]; [rewrite Hids; exact Hl|].
-    rewrite E. eexists; reflexivity.
-  - destruct (twrite_id_mismatch c (GMLine ct ls) Hh He) as [e E]; [rewrite Hids; exact Hl|].
-    rewrite E. eexists; reflexivity.
-  - destruct (twrite_id_mismatch c (GMPoly ct ps) Hh He) as [e E]; [rewrite Hids; exact Hl|].
-    rewrite E. eexists; reflexivity.
-  - destruct (twrite_id_mismatch c (GColl ct gs) Hh He) as [e E]; [rewrite Hids; exact Hl|].
-    rewrite E. eexists; reflexivity.
+    rewrite H; eexists; reflexivity.
 Qed.
 
 (* ---- the executable statement is true of the model's own output ---- *)
